@@ -33,8 +33,12 @@ def build_harness():
 
 def load_known():
     out = []
-    if os.path.exists(KNOWN):
-        for line in open(KNOWN):
+    paths = [KNOWN]
+    extra = os.environ.get("VERIF_EXTRA_KNOWN")     # development aid only (candidate files under review)
+    if extra: paths.append(os.path.join(ROOT, extra))
+    for kp in paths:
+        if not os.path.exists(kp): continue
+        for line in open(kp):
             line = line.strip()
             if line and not line.startswith("#"):
                 out.append(json.loads(line))
